@@ -1,4 +1,5 @@
 import ChythonModel.Proofs.C10WF
+import ChythonModel.Proofs.C10Layout3
 import ChythonModel.Proofs.C10Half
 /-!
 # C10 — binary pack format: lossless round trip, stable published layout
@@ -11,7 +12,7 @@ every bond listed from both ends, ≤ 4095 cis/trans records whose terminal atom
 `wfb` is its executable form; the driver evaluates it on every generated molecule.
 -/
 namespace ChythonModel.Props.C10
-open ChythonModel.Gen ChythonModel.Model.Pack ChythonModel.Proofs.C10
+open ChythonModel.Gen ChythonModel.Model.Pack ChythonModel.Proofs.C10 ChythonModel.Spec.PackLayout
 
 /-! ## G — regenerated tables -/
 
@@ -76,6 +77,17 @@ theorem decode_encode (m : PMol) (h : WF m) (rest : List Nat) :
       decode (bytes ++ rest) =
         .ok ⟨m.atoms.map eraseSt, ctListOf m.terminals (firstSeen [] m.atoms), bytes.length⟩ :=
   decode_encode_aux m h rest
+
+/-- **bit-for-bit conformance** with the published version-2 layout (`Spec/PackLayout.lean`, written from the
+    format docstring as a sequence of big-endian bit fields): for every molecule within the format limits the
+    packer's bytes are exactly the documented bytes. -/
+theorem encode_is_layout (m : PMol) (h : WF m) : ∃ bytes, encode m = .ok bytes ∧ layoutBytes m = some bytes :=
+  encode_is_layout_aux m h
+
+/-- the 3-bit order stream alone is the documented bit string for every bond count (zero-padded to a full byte) -/
+theorem order_stream_is_layout (codes : List Nat) (b : Nat) (h : ∀ c ∈ codes, c < 8) :
+    orderEnc 0 b codes = fieldsBytes (codes.map fun c => (3, c)) :=
+  orders_layout codes b h
 
 /-- the executable limit test implies the hypothesis -/
 theorem wf_of_wfb (m : PMol) (h : wfb m = true) : WF m := wfb_sound m h
